@@ -51,7 +51,9 @@ EXPLANATION = ("C15_identity_general (= C15_full, PROVED): for EVERY well-formed
                "vertices and every root (reflection, lifted through ring_correct to all rational phi, u); "
                "C15_history, C15_exact_in_unit, C15_expectation_rec general; C15_check_accepts_only_model: whatever the "
                "verified checker accepts agrees everywhere with the model's polynomial (any motif size). "
-               "Correspondence exhaustive over all graphs <= 4 (quick) / <= 5 (thorough) vertices x roots.")
+               "Correspondence exhaustive over all graphs <= 4 (quick) / <= 5 (thorough) vertices x roots; the same motifs are "
+               "also evaluated through MessagePassing.resolve_equation on covered networks (the motif = the vertex / edge lists of "
+               "the cover label, whatever other motifs touch its vertices) and judged by the same checker.")
 ASSUMPTIONS = [
     "networkx Graph.copy / remove_edges_from / remove_nodes_from / neighbors / is_connected / edges behave as modelled "
     "(their results are compared with the model's on every case)",
